@@ -155,7 +155,7 @@ impl<'a> Minimiser<'a> {
     fn doc(&self, scs: &[Scenario], detail: &str) -> Value {
         json!({
             "property": self.p.id,
-            "profile": if cfg!(debug_assertions) { "debug" } else { "release" },
+            "profile": coord::build_variant(),
             "seed": self.seed,
             "run_index": self.run_index,
             "class": self.class,
@@ -328,7 +328,8 @@ pub fn minimise_and_report(p: &HistProp, seed: u64, tier: Tier, block_first: u64
     let mut shrunk = failing.clone();
     shrunk.ops = ops.clone();
     for si in 0..shrunk.subjects.len() {
-        let used = shrunk.ops.iter().any(|o| matches!(o, Op::Parse { subj } | Op::Compile { subj, .. } | Op::CompileQuiet { subj, .. } if *subj == si));
+        let used = shrunk.ops.iter().any(|o| matches!(o, Op::Parse { subj } | Op::Compile { subj, .. } | Op::CompileQuiet { subj, .. } if *subj == si))
+            || shrunk.ops.iter().any(|o| matches!(o, Op::Compare { a, b } if *a == si || *b == si));
         if !used {
             continue;
         }
@@ -431,6 +432,12 @@ fn compact(sc: &Scenario) -> Scenario {
                 let n = subj_map.len();
                 subj_map.entry(*subj).or_insert(n);
             }
+            Op::Compare { a, b } => {
+                for x in [a, b] {
+                    let n = subj_map.len();
+                    subj_map.entry(*x).or_insert(n);
+                }
+            }
             Op::Render { path, .. } => {
                 let n = path_map.len();
                 path_map.entry(*path).or_insert(n);
@@ -459,6 +466,7 @@ fn compact(sc: &Scenario) -> Scenario {
                 Op::Compile { subj: subj_map[subj], slot: *slot, script: script.clone(), twice: *twice }
             }
             Op::CompileQuiet { subj, slot } => Op::CompileQuiet { subj: subj_map[subj], slot: *slot },
+            Op::Compare { a, b } => Op::Compare { a: subj_map[a], b: subj_map[b] },
             Op::Render { slot, path } => Op::Render { slot: *slot, path: path_map[path] },
             other => other.clone(),
         })
@@ -562,7 +570,7 @@ pub fn xproc_compare(path: &Path) -> Result<Option<Violation>, String> {
 
 fn xproc_doc(p: &HistProp, seed: u64, index: u64, variants: &[Scenario], detail: &str) -> Value {
     json!({
-        "property": p.id, "profile": if cfg!(debug_assertions) { "debug" } else { "release" }, "seed": seed, "run_index": index, "class": XPROC_CLASS, "detail": detail,
+        "property": p.id, "profile": coord::build_variant(), "seed": seed, "run_index": index, "class": XPROC_CLASS, "detail": detail,
         "xproc": true,
         "scenarios": variants.iter().map(|s| s.to_json()).collect::<Vec<_>>(),
     })
